@@ -217,11 +217,16 @@ func (x *Exec) valueInstr(st *State, b *ssa.BasicBlock, i int, ins ssa.Value, k 
 		for _, s := range ins.States {
 			names = append(names, provName(x.val(st, s.Chan)))
 		}
-		x.event(st, Event{Name: "select", Pos: ins.Pos(), Args: []SVal{mkU(q(x.D.constOf("sel!"+strings.Join(names, ","), "U")))}})
+		x.event(st, Event{Name: "chselect", Pos: ins.Pos(), Args: []SVal{mkU(q(x.D.constOf("sel!"+strings.Join(names, ","), "U")))}})
 		elems := []SVal{mkInt(idx), mkBool(q(x.D.fresh("recvok", "Bool")))}
 		tup := ins.Type().(*types.Tuple)
 		for j := 2; j < tup.Len(); j++ {
-			elems = append(elems, x.symbolic(st, x.D.fresh("recv", "U")+"v", tup.At(j).Type()))
+			rv := x.symbolic(st, x.D.fresh("recv", "U")+"v", tup.At(j).Type())
+			elems = append(elems, rv)
+			st.NamedV[fmt.Sprintf("received%d", j-2)] = rv
+			if j == 2 {
+				st.NamedV["received"] = rv
+			}
 		}
 		return SVal{K: KTuple, Elems: elems}, false
 	case *ssa.Range, *ssa.Next:
